@@ -331,8 +331,8 @@ func newWorld(cfg Config) (*world, error) {
 
 	ik := fix.Get("idp")
 	w.idp = &saml.IdentityProvider{Key: ik.Key, Certificate: ik.Cert, Logger: quiet,
-		MetadataURL: url.URL{Scheme: "https", Host: "idp.example.org", Path: "/metadata"},
-		SSOURL:      url.URL{Scheme: "https", Host: "idp.example.org", Path: "/sso"},
+		MetadataURL:     url.URL{Scheme: "https", Host: "idp.example.org", Path: "/metadata"},
+		SSOURL:          url.URL{Scheme: "https", Host: "idp.example.org", Path: "/sso"},
 		SessionProvider: sessProvider{w}}
 	var idpMeta saml.EntityDescriptor
 	if err := reparse(w.idp.Metadata(), &idpMeta); err != nil {
